@@ -47,10 +47,19 @@ def shards(tier: str) -> int:
 @st.composite
 def ingredients(draw: Any) -> dict[str, Any]:
     mode = draw(st.sampled_from(["text", "text", "bin"]))
-    sw: dict[str, Any] = {"mode": mode, "non_ascii": draw(st.integers(0, 3)) == 0, "max_rules": 3}
+    sw: dict[str, Any] = {"mode": mode, "non_ascii": draw(st.integers(0, 3 if mode == "text" else 1)) == 0, "max_rules": 3}
     if mode == "text":
         sw["regex"] = draw(st.sampled_from(["guarded", "guarded", "none"]))
     spec = draw(specgen.grammars(sw))
+    if draw(st.integers(0, 5)) == 0:
+        # directed: text literals of several UTF-8 bytes per character inside a binary grammar, with material
+        # before and behind them, so that every cut inside the literal is among the compositions
+        cur = draw(st.lists(st.sampled_from(["€", "£", "¥¥", "ab", "é", "€b"]), min_size=2, max_size=4, unique=True))
+        tail = draw(st.sampled_from([["opt", ["nt", "end"]], ["nt", "end"], ["star", ["nt", "end"]]]))
+        spec = {"rules": [["start", ["seq", [["nt", "tag"], ["nt", "cur"], tail]]],
+                          ["tag", ["alt", [["blit", "01"], ["blit", "0202"]]]],
+                          ["cur", ["alt", [["lit", c] for c in cur]]], ["end", ["blit", "00"]]],
+                "mode": "bin", "alphabet": "ab"}
     return {"spec": spec, "idx": draw(st.lists(st.integers(0, 10**6), min_size=2, max_size=5)),
             "edits": draw(st.lists(perturb_strategies(), min_size=2, max_size=2)),
             "int_frag": draw(st.booleans()), "first_only": draw(st.booleans())}
@@ -62,7 +71,7 @@ def build_case(ing: dict[str, Any]) -> dict[str, Any]:
     sem = S.Sem(spec)
     words = [S.word_to_input(w, mode) for w in sem.enumerate_words("start", max_len=7 if mode == "text" else 40, cap=120)
              if (mode == "text" and 1 <= len(w) <= 7) or (mode != "text" and len(w) % 8 == 0 and 8 <= len(w) <= 40)]
-    chosen: list[Any] = []
+    chosen: list[Any] = list(words) if len(words) <= 12 else []
     for i in ing["idx"]:
         if words:
             w = words[i % len(words)]
